@@ -205,7 +205,7 @@ theorem eval_spec_exact_pods (attrs : String → Labels × List CPort) (nsOf : S
     (hsp : getPeer (EState.run { cache := { cap := n } } ops).eng src = .ok (.pod p (some ns)))
     (hdp : getPeer (EState.run { cache := { cap := n } } ops).eng dst = .ok (.pod q (some ms)))
     (hp : p.isRepresentative = false) (hq' : q.isRepresentative = false)
-    (hne : (p.name == q.name && p.ns == q.ns) = false)
+    (hne : (p.name == q.name && p.ns == q.ns && p.fake == q.fake) = false)
     {pr : Proto} {x : Int} (hq : Parses proto port pr x) (hx : inRange x) :
     ((EState.run { cache := { cap := n } } ops).checkIfAllowed src dst proto port).1 =
       .ok (Spec.allowed (EState.run { cache := { cap := n } } ops).eng.toView
